@@ -95,6 +95,11 @@ impl Completions {
         // Let the kernel write more completions.
         unsafe { (&*self.entries_head.as_ptr()).store(head, Ordering::Release) };
 
+        // Futures waiting on a submission slot are otherwise only woken after
+        // a successful `io_uring_enter` call. That is not made if completions
+        // were already available, and it doesn't wake them if it timed out.
+        shared.wake_blocked_futures();
+
         Ok(())
     }
 
